@@ -106,12 +106,15 @@ func (fr *frame) site() string {
 	return fmt.Sprintf("%s:%d", trimPath(p.Filename), p.Line)
 }
 
+// RepoPrefix is stripped from source positions.
+var RepoPrefix = "/repo/"
+
 func trimPath(f string) string {
 	if i := strings.Index(f, "/pkg/mod/"); i >= 0 {
 		return f[i+9:]
 	}
-	if strings.HasPrefix(f, "/repo/") {
-		return f[6:]
+	if strings.HasPrefix(f, RepoPrefix) {
+		return f[len(RepoPrefix):]
 	}
 	if i := strings.Index(f, "/src/"); i >= 0 && strings.Contains(f, "go") {
 		return f[i+5:]
